@@ -127,7 +127,9 @@ fn c01b_rc_bit_tree8() {
     let mut dec = RangeDecoder::new_stream(Src::<12>::new(sink.buf, sink.len)).unwrap();
     let got = dec.decode_bit_tree(&mut pd);
     assert!(got == sym as i32, "C01-B: bit tree symbol not mirrored");
-    assert!(pd == pe, "C01-B: bit tree probabilities diverged");
+    let j: usize = kani::any();
+    kani::assume(j < 8);
+    assert!(pd[j] == pe[j], "C01-B: bit tree probabilities diverged");
     dec.normalize();
     assert!(dec.is_stream_finished() && dec.verif_inner().pos == sink.len);
     kani::cover!(sym == 7, "all-ones symbol");
@@ -148,7 +150,9 @@ fn c01b_rc_reverse_tree16() {
     let mut dec = RangeDecoder::new_stream(Src::<12>::new(sink.buf, sink.len)).unwrap();
     let got = dec.decode_reverse_bit_tree(&mut pd);
     assert!(got == sym as i32, "C01-B: reverse bit tree symbol not mirrored");
-    assert!(pd == pe, "C01-B: reverse bit tree probabilities diverged");
+    let j: usize = kani::any();
+    kani::assume(j < 16);
+    assert!(pd[j] == pe[j], "C01-B: reverse bit tree probabilities diverged");
     dec.normalize();
     assert!(dec.is_stream_finished() && dec.verif_inner().pos == sink.len);
     kani::cover!(sym == 5, "mixed bits");
